@@ -478,14 +478,14 @@ Proof.
   apply cl_TId; [exact Hd|]. clt.
 Qed.
 
-Lemma delegation_call_cl a ca name args :
+Lemma delegation_call_cl a ca bv name args :
   not_by_ref a -> (match ta_impl_trait a with Some it => name_ok it | None => true end) = true ->
-  name_ok name = true -> Forall cl args -> cl (delegation_call a ca name args).
+  name_ok name = true -> Forall cl args -> cl (delegation_call a ca bv name args).
 Proof.
   intros Hr Hit Hn Ha. unfold delegation_call.
   assert (Hj : cl (join [comma] args)) by (apply cl_join; [clt | exact Ha]).
-  assert (Hdef : cl [TId "self"; pc "."; TId "as_ref"; TG Paren []; pc "."; TId name; TG Paren (join [comma] args)]).
-  { apply cl_TId; [reflexivity|]. apply cl_TP. apply cl_TId; [reflexivity|]. apply cl_TG; [exact cl_nil|]. apply cl_TP.
+  assert (Hdef : cl [TId "self"; pc "."; TId (if bv then "into_inner" else "as_ref"); TG Paren []; pc "."; TId name; TG Paren (join [comma] args)]).
+  { apply cl_TId; [reflexivity|]. apply cl_TP. apply cl_TId; [destruct bv; reflexivity|]. apply cl_TG; [exact cl_nil|]. apply cl_TP.
     apply cl_TId; [exact Hn|]. apply cl_TG; [exact Hj | exact cl_nil]. }
   destruct (ta_impl_trait a) as [it|], (ta_delegate a) as [[|r|del]|] eqn:Ed; try exact Hdef; try (exfalso; exact (Hr r Ed)).
   apply cl_app; [clt|]. apply cl_app; [clt|]. apply cl_app; [|apply cl_app; [clt|]].
